@@ -351,7 +351,7 @@ func FieldMutations(doc []byte, f refnbt.Field) []Mutation {
 			add("len=0", 0)
 		}
 	default: // 4-byte lengths
-		for _, v := range []int64{-1, -2147483648, cur + 1, cur - 1, remaining + 1, 1 << 16, 1 << 20} {
+		for _, v := range []int64{-1, -2147483648, cur + 1, cur - 1, remaining + 1, 1 << 16, 1 << 20, 1 << 28, 0x7fffffff} {
 			if v != cur && v >= -2147483648 {
 				add("len="+lenName(v, cur, remaining), v)
 			}
